@@ -96,3 +96,12 @@ Theorem compliance_retention_rule : forall bypass_ok, put_retention_allowed (Som
 Proof. reflexivity. Qed.
 Theorem governance_retention_rule : forall bypass_ok, put_retention_allowed (Some Governance) bypass_ok = bypass_ok.
 Proof. reflexivity. Qed.
+
+(* the default rule protects what is uploaded under it, whatever happens to the rule afterwards (PutLockConfig is one of the ops) *)
+Theorem default_rule_protects : forall ops m, Forall no_bypass ops ->
+  present (druns (uploaded None (Some m) false) ops) = true /\ ret (druns (uploaded None (Some m) false) ops) = Some (m, true).
+Proof.
+  intros ops m Hnb. destruct m.
+  - apply governance_protects; try reflexivity. exact Hnb.
+  - apply compliance_protects; reflexivity.
+Qed.
